@@ -216,6 +216,43 @@ theorem writeAllOk_ne_nil (w inc) (bs : List (List Bytes)) (ts : UInt32) (sq : U
   | nil => exact absurd rfl hbs
   | cons b bs => simp [writeAllOk, h b (by simp)]
 
+/-- a list whose markers are `false … false, true` ends with a marked packet -/
+theorem last_marked (l : List Pkt) (n : Nat) (h : l.map (·.marker) = List.replicate n false ++ [true]) :
+    ∃ ini lst, l = ini ++ [lst] ∧ lst.marker = true := by
+  have hne : l ≠ [] := by
+    intro h0; subst h0; simp at h
+  refine ⟨l.dropLast, l.getLast hne, (List.dropLast_concat_getLast hne).symm, ?_⟩
+  have h2 := congrArg List.getLast? h
+  rw [List.getLast?_map, List.getLast?_eq_some_getLast hne] at h2
+  simpa using h2
+
+/-- the packets of a call end with a marked packet when every batch does -/
+theorem writeAllOk_last (w inc) (bs : List (List Bytes)) (ts : UInt32) (sq : UInt16) (hbs : bs ≠ [])
+    (h : ∀ b ∈ bs, ∀ ts sq, ∃ n, (w b ts sq).map (·.marker) = List.replicate n false ++ [true]) :
+    ∃ ini lst, writeAllOk w inc bs ts sq = ini ++ [lst] ∧ lst.marker = true := by
+  induction bs generalizing ts sq with
+  | nil => exact absurd rfl hbs
+  | cons b bs ih =>
+    by_cases hr : bs = []
+    · subst hr
+      obtain ⟨n, hn⟩ := h b (by simp) ts sq
+      obtain ⟨ini, lst, h1, h2⟩ := last_marked _ n hn
+      exact ⟨ini, lst, by simp [writeAllOk, h1], h2⟩
+    · obtain ⟨ini, lst, h1, h2⟩ := ih (ts + inc b) (sq + UInt16.ofNat (w b ts sq).length) hr
+        (fun x hx => h x (by simp [hx]))
+      exact ⟨w b ts sq ++ ini, lst, by simp [writeAllOk, h1], h2⟩
+
+theorem length_le_flatten_length (L : List (List Bytes)) (b : List Bytes) (hb : b ∈ L) :
+    b.length ≤ L.flatten.length := by
+  induction L with
+  | nil => simp at hb
+  | cons x xs ih =>
+    simp only [List.mem_cons] at hb
+    simp only [List.flatten_cons, List.length_append]
+    rcases hb with hb | hb
+    · subst hb; omega
+    · have := ih hb; omega
+
 /-! ### decoding -/
 
 theorem runDecGen_append {δ α : Type} (step : δ → Pkt → δ × DecRes α) (d : δ) (ps qs : List Pkt) :
